@@ -998,6 +998,16 @@ func (e *Exec) inline(st *State, call *ast.CallExpr, fi *FuncInfo, recv Term, ar
 		f := e.pushFrame(fi, fi.Pkg.TypesInfo)
 		defer e.popFrame()
 		sub := st.Clone()
+		// compound argument terms are named: a ghost function's body then has the same shape wherever it is
+		// expanded (fold functions of __count/__sumseq lambdas are keyed by the shape of their body)
+		named := make([]Term, len(args))
+		for i, a := range args {
+			named[i] = e.Ctx.Name("ga", a)
+		}
+		args = named
+		if recv.S != "" {
+			recv = e.Ctx.Name("ga", recv)
+		}
 		e.bindSignature(sub, f, fi.Decl, fi.Decl.Type, recv, args)
 		ret := fi.Decl.Body.List[0].(*ast.ReturnStmt)
 		var out []Term
